@@ -1458,6 +1458,10 @@ class Resolver:
             return self.place(op['place'], bb, idx)
         if k == 'const':
             if 'fn' in op:
+                # a crate-local function used as a value (`.filter(is_dead)`) is a closure without captures
+                fb = self.body.facts.by_path.get(op['fn'])
+                if fb is not None and fb.kind != 'Closure':
+                    return ('closure', op['fn'], ())
                 return ('fn', strip_generics(op['fn']))
             if 'val' in op:
                 return ('const', op['val'])
